@@ -9,13 +9,13 @@ import os
 RUNS = {
     "C01": (20000, 240000),
     "C02": (8000, 96000),
-    "C03": (12000, 144000),
-    "C04": (12000, 144000),
+    "C03": (30000, 360000),
+    "C04": (30000, 360000),
     "C05": (4000, 48000),
     "C06": (4000, 48000),
     "C08": (10000, 120000),
     "C09": (8000, 96000),
-    "C10": (14000, 168000),
+    "C10": (30000, 360000),
     "C12": (5000, 60000),
     "C13": (6000, 72000),
     "C14": (5000, 60000),
